@@ -5,10 +5,12 @@ use crate::report::*;
 pub mod common;
 pub mod c02;
 pub mod c04;
+pub mod c05;
 pub mod c07;
 pub mod c12;
 pub mod c14;
 pub mod c16;
+pub mod c17;
 pub mod c18;
 
 pub struct Plan {
@@ -29,10 +31,12 @@ pub fn all() -> Vec<Scenario> {
     vec![
         Scenario { name: "c02", plan: c02::plan, run: c02::run },
         Scenario { name: "c04", plan: c04::plan, run: c04::run },
+        Scenario { name: "c05", plan: c05::plan, run: c05::run },
         Scenario { name: "c07", plan: c07::plan, run: c07::run },
         Scenario { name: "c12", plan: c12::plan, run: c12::run },
         Scenario { name: "c14", plan: c14::plan, run: c14::run },
         Scenario { name: "c16", plan: c16::plan, run: c16::run },
+        Scenario { name: "c17", plan: c17::plan, run: c17::run },
         Scenario { name: "c18", plan: c18::plan, run: c18::run },
     ]
 }
